@@ -111,4 +111,19 @@ def heightRangeToPmmr (n : Node) (startH endH : Nat) : Except Err (Nat × Nat) :
   | some s, some e => .ok (s, e)
   | _, _ => .error "StoreErr"
 
+/-- `txhashset::input_pos_to_rewind(horizon_header, head_header)` (chain/src/txhashset/txhashset.rs),
+the bitmap `TxHashSet::compact` hands to the backends as "spent above the horizon, keep for a
+rewind": the walk goes from the head down to - and excluding - the horizon header along
+`get_previous_header`, OR-ing `get_block_input_bitmap` (= the positions of the block's spent index,
+chain/src/store.rs) of every block that HAS a spent-index record (`if let Ok`); 1-based MMR
+positions. Blocks that are not on the head's own path are never visited. -/
+def inputPosToRewind (n : Node) (S : TxHS) (horizonHeight : Nat) : List Nat :=
+  match n.path n.head with
+  | none => []
+  | some p =>
+    ((p.filter fun b => decide (b.h > horizonHeight)).reverse).flatMap fun b =>
+      match S.getSpentIndex b.id with
+      | some l => l.map fun cp => mmr cp.pos + 1
+      | none => []
+
 end GV.Chain
